@@ -14,7 +14,9 @@ Whys(e) ==
   IF e.op # "sched" THEN <<"H:unknown-op">>
   ELSE
   <<IF \E i \in DOMAIN e.workers : e.workers[i].got.kind \in {"panic", "stuck"} THEN "P:C14:a-call-panicked-or-hung-under-an-interleaving" ELSE "ok",
-    IF \E i \in DOMAIN e.workers : e.workers[i].same # 1 /\ e.workers[i].got.kind \notin {"panic", "stuck"}
+    \* (only when every read of the source was served to a parked draw: with stray reads - words fetched ahead of their draws -
+    \* the scheduler cannot give the same choices to the same call, and the comparison says nothing)
+    IF e.stray = 0 /\ \E i \in DOMAIN e.workers : e.workers[i].same # 1 /\ e.workers[i].got.kind \notin {"panic", "stuck"}
       THEN "P:C14:a-calls-result-under-an-interleaving-differs-from-the-same-call-made-alone" ELSE "ok",
     IF e.stray > 0 THEN "S:random-source-read-outside-an-announced-draw" ELSE "ok",
     IF \E i \in DOMAIN e.workers : e.workers[i].draws # e.workers[i].expDraws THEN "S:number-of-draws-differs-under-the-interleaving" ELSE "ok">>
